@@ -6,6 +6,8 @@ import json
 import os
 import re
 
+from fractions import Fraction
+
 import vlib
 import dl_common
 from dl_common import Session, run_script, split_histories
@@ -38,6 +40,12 @@ def generate(ctx, hexe, plan):
                 g.rel(arg)
             elif profile == "realsat":
                 g.realsat(arg)
+            elif profile == "retighten":
+                g.retighten()
+            elif profile == "prepend":
+                g.prepend(False)
+            elif profile == "prepend_realsat":
+                g.prepend(True)
             rc = s.close()
             hists.append((profile, theory, list(s.script), list(s.outs), rc))
     return hists
@@ -82,6 +90,38 @@ def valid_script(outs):
     return all(not r.startswith("?") for r, _ in outs)
 
 
+def protocol_ok(theory, cmds, outs):
+    """the protocol of sat_core (wf_run of the theorems): a level is opened only with an empty queue, popped only with an empty
+    queue or after a conflict, nothing but a pop follows a conflict, creation happens at root level. Candidates of the shrinker
+    and of the failing-input search that break it are discarded: what the judge sees on them says nothing about the code."""
+    q_empty, conflicted, level = True, False, 0
+    for c, (r, sline) in zip(cmds, outs):
+        k = c.split()[0]
+        if k in ("init", "guard", "variants"):
+            q_empty, conflicted, level = True, False, 0
+            continue
+        if conflicted and k not in ("pop", "bounds", "dist", "boundsl", "distl", "equates"):
+            return False
+        if k in ("push", "assume") and not q_empty:
+            return False
+        if k == "pop" and not (q_empty or conflicted):
+            return False
+        if k in ("newvar", "newdist2", "rel") and level > 0:
+            return False
+        if k == "assert" and level > 0:
+            return False
+        st = dl_common.parse_state(theory, sline) if sline else None
+        if st is None:
+            return True
+        q_empty = not st.Q
+        level = len(st.T) - 1
+        if "prop false" in r:
+            conflicted = True
+        elif k == "pop":
+            conflicted = False
+    return True
+
+
 def shrink(cmds, still_fails, budget=120):
     """greedy removal of single commands / chunks (never the init line); still_fails(cmds) -> bool"""
     cur = list(cmds)
@@ -100,6 +140,155 @@ def shrink(cmds, still_fails, budget=120):
         if not changed:
             chunk //= 2
     return cur
+
+
+# ------------------------------------------------------------------------------------------------
+# failing-input search behind a mismatch of the differential: keep driving the IMPLEMENTATION (the rest of the history and
+# targeted continuations) under the model-independent judge, so that a state the model disagrees with is turned into a
+# concrete violation of the property whenever it has an observable consequence
+# ------------------------------------------------------------------------------------------------
+import math
+import re as _re
+
+_TOK = _re.compile(r"(\d+),(\d+):")
+
+
+def _remap(line, n0, k):
+    """literal numbers >= n0 move up by k (k probe literals were created in front of them)"""
+    tk = line.split()
+    if not tk or k == 0:
+        return line
+    c = tk[0]
+    if c in ("assume", "assert", "enq", "sassume"):
+        v = int(tk[1])
+        tk[1] = str(v + k if v >= n0 else v)
+    elif c in ("sclause", "scheck"):
+        for x in range(1, len(tk) - 1, 2):
+            v = int(tk[x])
+            tk[x] = str(v + k if v >= n0 else v)
+    return " ".join(tk)
+
+
+def _affected_cells(theory, impl_s, model_s, prev_s):
+    a, m = dl_common.parse_state(theory, impl_s), dl_common.parse_state(theory, model_s)
+    p = dl_common.parse_state(theory, prev_s) if prev_s else None
+    cells = []
+    if a is None:
+        return cells
+
+    def add(c):
+        if c not in cells and c[0] != c[1] and c[0] < a.n and c[1] < a.n:
+            cells.append(c)
+    if m is not None and m.n == a.n:
+        for i in range(a.n):
+            for j in range(a.n):
+                if a.D[i][j] != m.D[i][j] or a.P[i][j] != m.P[i][j]:
+                    add((i, j))
+        if a.L != m.L:
+            ta, tm = set(_TOK.findall(a.L)), set(_TOK.findall(m.L))
+            for x, y in sorted(ta | tm, key=lambda t: (int(t[0]), int(t[1]))):
+                add((int(x), int(y)))
+    if p is not None and p.n == a.n:
+        for i in range(a.n):
+            for j in range(a.n):
+                if a.D[i][j] != p.D[i][j] or a.P[i][j] != p.P[i][j]:
+                    add((i, j))
+    return cells[:10]
+
+
+def deep_search(ctx, hexe, theory, cmds, outs, i, model_pair, owns):
+    """-> (signature, detail, script) of a violation the judge finds on a continuation of the history, or None"""
+    rng = ctx.rng
+    states = [dl_common.parse_state(theory, s) if s else None for _, s in outs]
+    if i >= len(states) or states[i] is None:
+        return None
+    lvl = [len(st.T) - 1 if st else 0 for st in states]
+    r = i
+    while r > 0 and lvl[r] > 0:
+        r -= 1
+    if lvl[r] > 0:
+        return None
+    cells = _affected_cells(theory, outs[i][1], model_pair[1], outs[i - 1][1] if i > 0 else None)
+    unit = (Fraction(1), Fraction(0)) if theory == "idl" else (Fraction(0), Fraction(1))
+    # values the affected cells take anywhere in the history
+    vals = {}
+    for st in states[r:]:
+        if st is None:
+            continue
+        for (x, y) in cells:
+            if x < st.n and y < st.n and st.D[x][y][0] != math.inf:
+                vals.setdefault((x, y), [])
+                if st.D[x][y] not in vals[(x, y)] and len(vals[(x, y)]) < 3:
+                    vals[(x, y)].append(st.D[x][y])
+    probes = []
+    for (x, y), gs in vals.items():
+        for g in gs:
+            probes.append("newdist %d %d %s" % (x, y, dl_common.fmt_dist(theory, g)))
+            probes.append("newdist %d %d %s" % (y, x, dl_common.fmt_dist(theory, (-g[0] - unit[0], -g[1] - unit[1]))))
+    probes = probes[:24]
+    queries = ["dist %d %d" % c for c in cells]
+    end_level = lvl[len(outs) - 1] if outs else 0
+
+    def tail_for(st_end, with_subsets=True):
+        """pop everything, look at the restored values, re-assert parts of what had been asserted"""
+        out = []
+        depth = len(st_end.T) - 1
+        lits = [(v, st_end.A[v] == "T") for lv in st_end.T[1:] for v in lv if v in st_end.V]
+        if st_end.Q:
+            out.append("drain")
+        out += ["pop"] * depth + queries
+        for (x, y) in cells[:4]:
+            g = st_end.D[x][y]
+            if g[0] != math.inf:
+                out.append("newdist %d %d %s" % (x, y, dl_common.fmt_dist(theory, g)))
+                out.append("newdist %d %d %s" % (y, x, dl_common.fmt_dist(theory, (-g[0] - unit[0], -g[1] - unit[1]))))
+        if lits and with_subsets:
+            for _ in range(3):
+                sub = rng.sample(lits, max(1, min(len(lits), rng.choice([1, 2, 2, 3]))))
+                out.append("push")
+                out += ["enq %d %d" % (v, 1 if sg else 0) for v, sg in sub]
+                out += ["drain"] + queries[:3] + ["pop"]
+            out.append("push")
+            out += ["enq %d %d" % (v, 1 if sg else 0) for v, sg in lits]
+            out += ["drain", "pop"] + queries[:3]
+            for v, sg in lits[:4]:
+                out += ["assume %d %d" % (v, 1 if sg else 0)]
+            out += ["pop"] * min(4, len(lits))
+        return out
+
+    candidates = []
+    last = next((st for st in reversed(states) if st is not None), None)
+    if last is not None:
+        candidates.append(list(cmds) + tail_for(last))
+    candidates.append(list(cmds[:i + 1]) + tail_for(states[i]))
+    # the same history again, with undecided constraints on the affected cells created at root level beforehand: every
+    # tightening of such a cell now has to be explained (lemma through the cell), and the explanations are judged
+    if probes:
+        pre = list(cmds[:r + 1]) + probes
+        o_pre, rc, _ = run_impl(hexe, pre)
+        if valid_script(o_pre) and len(o_pre) == len(pre) and o_pre[-1][1]:
+            st_r, st_p = states[r], dl_common.parse_state(theory, o_pre[-1][1])
+            if st_p is not None:
+                n0, k = len(st_r.A), len(st_p.A) - len(st_r.A)
+                rest = [_remap(c, n0, k) for c in cmds[r + 1:]]
+                script = pre + rest
+                o_s, rc, _ = run_impl(hexe, script)
+                st_e = next((dl_common.parse_state(theory, s) for _, s in reversed(o_s) if s), None)
+                candidates.insert(0, script + (tail_for(st_e) if st_e is not None else []))
+    for script in candidates:
+        o, rc, _ = run_impl(hexe, script)
+        if not protocol_ok(theory, script, o):
+            continue
+        j = judge_history(theory, script, o)
+        viol = [(sg, d) for sg, d in j.viol if not sg.endswith("invalid-script")]
+        if rc not in (0, None) and not viol and valid_script(o):
+            viol = [(theory + ":crash-or-exception", {"at": len(o) - 1, "rc": rc, "why": "the harness terminated abnormally (assert / signal)"})]
+        for sg, d in viol:
+            at = d.get("at")
+            cname = script[at].split()[0] if isinstance(at, int) and 0 <= at < len(script) else None
+            if owns(sg, cname) or sg.split(":", 1)[-1].startswith(C10_SIGS):
+                return sg, d, script
+    return None
 
 
 _PENDING = None
@@ -141,14 +330,14 @@ def compare_and_judge(ctx, hexe, oexe, hists, guard, owns, do_diff=True):
     owns(signature) -> bool: which judge signatures belong to the property being checked."""
     stats = {"histories": 0, "commands": 0, "diffed_commands": 0, "mismatching_commands": 0, "mismatches_attributed_to_implementation": 0,
              "judge_state_checks": 0, "judge_clause_checks": 0, "judge_rel_checks": 0, "judge_query_checks": 0, "cells_checked": 0,
-             "model_faults": 0, "distinct_states": 0, "agreeing_commands": 0}
+             "model_faults": 0, "distinct_states": 0, "agreeing_commands": 0, "deep_searches": 0, "deep_search_hits": 0}
     seen_sig = set()
     states = set()
     gline = guard if isinstance(guard, str) else "guard %d" % (1 if guard else 0)
     script = [gline]
     spans = []
     for profile, theory, cmds, outs, rc in hists:
-        if do_diff and profile != "realsat":
+        if do_diff and not profile.endswith("realsat"):
             spans.append((len(script), len(cmds)))
             script += cmds
         else:
@@ -184,7 +373,7 @@ def compare_and_judge(ctx, hexe, oexe, hists, guard, owns, do_diff=True):
                 o, rc2, _ = run_impl(hexe, cand)
                 if len(o) < len(cand) and rc2 == 0:
                     return False
-                if not valid_script(o):
+                if not valid_script(o) or not protocol_ok(theory, cand, o):
                     return False
                 jj = judge_history(theory, cand, o)
                 if any(s2 == sig for s2, _ in jj.viol):
@@ -219,12 +408,41 @@ def compare_and_judge(ctx, hexe, oexe, hists, guard, owns, do_diff=True):
                     break
                 continue
             sig = "corr:%s:%s" % (theory, c.split()[0])
+            if owns(sig, c.split()[0]) and stats["deep_searches"] < 12 and (sig not in seen_sig or stats["deep_searches"] < 4):
+                # before settling for "the model differs": does the state the model disagrees with have a consequence that
+                # violates the property?  (the rest of the history and targeted continuations, judged independently)
+                stats["deep_searches"] += 1
+                hit = deep_search(ctx, hexe, theory, cmds, outs, i, m, owns)
+                if hit is not None:
+                    dsig, ddet, dscript = hit
+                    stats["deep_search_hits"] += 1
+                    if dsig not in seen_sig:
+                        seen_sig.add(dsig)
+
+                        def dfails(cand, dsig=dsig, theory=theory):
+                            o, rc2, _ = run_impl(hexe, cand)
+                            if not valid_script(o) or (len(o) < len(cand) and rc2 == 0) or not protocol_ok(theory, cand, o):
+                                return False
+                            jj = judge_history(theory, cand, o)
+                            if any(s2 == dsig for s2, _ in jj.viol):
+                                return True
+                            return dsig.endswith("crash-or-exception") and rc2 not in (0, None)
+                        small = shrink(dscript, dfails, budget=200) if not is_known(ctx, dsig) else dscript
+                        o2, _, _ = run_impl(hexe, small)
+                        jj = judge_history(theory, small, o2)
+                        det = next((dd for s2, dd in jj.viol if s2 == dsig), ddet)
+                        report(ctx, dsig, {"kind": "implementation-violates-property", "profile": profile, "theory": theory, "detail": det,
+                                           "found_by": "failing-input search behind a mismatch of the differential at `%s`" % c,
+                                           "script": small, "replay_cmd": "python3 tools/verif.py %s replay <this file>" % ctx.prop,
+                                           "implementation_output": [list(x) for x in o2[-2:]]})
+                    seen_sig.add(sig)
+                    break
             if sig not in seen_sig and owns(sig, c.split()[0]):
                 seen_sig.add(sig)
 
                 def differs(cand, theory=theory):
                     o, rc2, _ = run_impl(hexe, cand)
-                    if not valid_script(o) or len(o) < len(cand):
+                    if not valid_script(o) or len(o) < len(cand) or not protocol_ok(theory, cand, o):
                         return False
                     if judge_history(theory, cand, o).viol:
                         return False
